@@ -170,21 +170,25 @@ class RCAnalysis:
                     return self._destroy(st)
                 if st.tmp != -1 and (e.get('pq') or fn).split('<')[0].split('::')[-1] == 'swap' and len(e.get('a') or []) == 2:
                     x, y = strip_lv(e['a'][0]), strip_lv(e['a'][1])
-
-                    def side(w):
-                        # 'this' / 'tmp' for the handle itself or its storage member
-                        if w.get('k') == 'mem' and w.get('f') == fam['storage']:
-                            b_ = strip_lv(w.get('b') or {})
-                            if b_.get('k') in (None, 'this'):
-                                return 'this'
-                            return 'tmp' if b_.get('k') == 'var' and b_.get('id') == st.tmp else None
-                        if w.get('k') == 'var' and w.get('id') == st.tmp:
-                            return 'tmp'
-                        if w.get('k') == 'un' and w.get('op') == '*' and strip_lv(w['e']).get('k') == 'this':
-                            return 'this'
-                        return None
-                    if set((side(x), side(y))) == set(('this', 'tmp')):
+                    if set((self._side(f, fam, st, x), self._side(f, fam, st, y))) == set(('this', 'tmp')):
                         return st.set(swapped=True)
+                if st.tmp != -1 and e.get('clsp') in family and (e.get('obj') is None or strip_lv(e['obj']).get('k') == 'this') and \
+                        any(strip_lv(a).get('k') == 'var' and strip_lv(a).get('id') == st.tmp for a in e.get('a') or []):
+                    # a helper of the class that exchanges the storage of *this with its parameter's (swapTable(t))
+                    for g in self.prog.fn(e['fn'], e.get('sig')):
+                        if not g.get('body') or len(g.get('params') or []) != 1:
+                            continue
+                        pid_ = g['params'][0]['id']
+                        for w in fn_exprs(g):
+                            if w.get('k') == 'call' and (w.get('pq') or w.get('fn') or '').split('<')[0].split('::')[-1] == 'swap' and len(w.get('a') or []) == 2:
+                                sides = set()
+                                for a_ in w['a']:
+                                    a_ = strip_lv(a_)
+                                    if a_.get('k') == 'mem' and a_.get('f') == fam['storage']:
+                                        b_ = strip_lv(a_.get('b') or {})
+                                        sides.add('this' if b_.get('k') in (None, 'this') else 'tmp' if b_.get('id') == pid_ else None)
+                                if sides == set(('this', 'tmp')):
+                                    return st.set(swapped=True)
                 if e.get('clsp') in family and e.get('fn') and depth < 4 and own_object(f, e, family):
                     cands = self.prog.fn(e['fn'], e.get('sig'))
                     if cands and cands[0] is not f:
@@ -192,6 +196,24 @@ class RCAnalysis:
                         outs = self.run(g, fam, depth + 1, st.set(decvar=-1))
                         return [o.set(decvar=st.decvar) for o in outs] if outs else None
                 return st
+            if k == 'bin' and e.get('op') == '=' and st.tmp != -1:
+                # exchange written out: `t.storage = storage` (the old object goes to the local) and `storage = <what t held>`,
+                # either side possibly through a local that was initialised from the storage member
+                lhs_ = strip_lv(e['x'])
+                defs_ = q.single_defs(f)
+
+                def derives(rhs, side):
+                    for w in walk_expr(rhs):
+                        if w.get('k') == 'mem' and self._side(f, fam, st, w) == side:
+                            return True
+                        if w.get('k') == 'var' and w.get('id') in defs_ and w.get('id') != st.tmp and any(
+                                x_.get('k') == 'mem' and self._side(f, fam, st, x_) == side for x_ in walk_expr(defs_[w['id']] or {})):
+                            return True
+                    return False
+                if lhs_.get('k') == 'mem' and self._side(f, fam, st, lhs_) == 'tmp' and derives(e['y'], 'this'):
+                    return st.set(swapped=True if st.swapped == 't' else (st.swapped or 'g'))
+                if lhs_.get('k') == 'mem' and self._side(f, fam, st, lhs_) == 'this' and derives(e['y'], 'tmp'):
+                    return st.set(swapped=True if st.swapped == 'g' else (st.swapped or 't'))
             if k == 'bin' and e.get('op') == '=':
                 lhs = strip_lv(e['x'])
                 # `_p = 0` : handle becomes null
@@ -231,6 +253,19 @@ class RCAnalysis:
         reached, parent = cfgm.dataflow(cfg, init, step, edge)
         self.ctx.evaluations += sum(len(v) for v in reached.values())
         return set(reached.get(cfg.exit.id, set()))
+
+    def _side(self, f, fam, st, w):
+        """'this' / 'tmp' for an expression that designates the handle itself or its storage member"""
+        if w.get('k') == 'mem' and w.get('f') == fam['storage']:
+            b_ = strip_lv(w.get('b') or {})
+            if b_.get('k') in (None, 'this'):
+                return 'this'
+            return 'tmp' if b_.get('k') == 'var' and b_.get('id') == st.tmp else None
+        if w.get('k') == 'var' and w.get('id') == st.tmp:
+            return 'tmp'
+        if w.get('k') == 'un' and w.get('op') == '*' and strip_lv(w['e']).get('k') == 'this':
+            return 'this'
+        return None
 
     def _destroy(self, st):
         if not st.tested:
@@ -433,7 +468,7 @@ def check_family(ctx, prog, name, prop_tag=''):
             for s in exits:
                 if s.tmp != -1:
                     # the local copy is destroyed on the way out: one release - of the old object if the storage was swapped
-                    if not s.swapped:
+                    if s.swapped is not True:
                         problems.append('a copy of the argument is made but its storage is never swapped with this handle (the assignment has no effect)')
                     s = s.set(dec=min(s.dec + 1, 3), first=s.first or 'd')
                 acq = s.inc + (1 if s.fresh not in (-1, 99) and s.fresh == 1 else 0)
@@ -478,6 +513,36 @@ def check_core_copies(ctx, prog, name):
     return n
 
 
+def interp_count_op(prog, f, prim):
+    """AtomicCount::operator++ / -- interpreted (scansim, class helpers followed) with the two primitives replaced by recorders:
+    -> True when exactly one call of `prim` on the address of the member `n` was made and its value is what the operator
+    returns; a description of the deviation otherwise; None when the body is outside the interpreted fragment."""
+    import scansim
+    log = []
+
+    def rec(name, token):
+        def fn_(run, e, args):
+            log.append((name, args[0] if args else None))
+            return token
+        return fn_
+    ext = {'atomicInc': rec('atomicInc', 1000001), 'asl::atomicInc': rec('atomicInc', 1000001), 'atomicDec': rec('atomicDec', 2000002), 'asl::atomicDec': rec('atomicDec', 2000002)}
+    want = 1000001 if prim == 'atomicInc' else 2000002
+    for n0 in (5, 1, 0, -1, -3, 2147483647):
+        del log[:]
+        mems = {'n': n0}
+        try:
+            ret = scansim.Run(prog, f, {}, mems=mems, methods={'*': 'interp'}, externs=ext, objects=True).run()
+        except (scansim.Unsupported, scansim.OOB, TypeError, KeyError, IndexError, ValueError):
+            return None
+        if [c for c in log if c[0] == prim and c[1] == ('PM', 'n')] != log or len(log) != 1:
+            return 'with the count at %d the operator performs %s instead of exactly one %s(&n): that update is lost' % (n0, [c[0] for c in log] or 'no atomic operation', prim)
+        if mems.get('n') != n0:
+            return 'the count is also modified by a plain store'
+        if ret != want:
+            return 'the value returned is not the one %s returned (a separate read of the count can miss the zero another thread produced)' % prim
+    return True
+
+
 def check_primitive(ctx, prog):
     """R-RC.a: AtomicCount operators are the atomic primitives; nothing else modifies a count."""
     n = 0
@@ -487,6 +552,11 @@ def check_primitive(ctx, prog):
             raise AnalysisBroken('AtomicCount::%s not found' % opn)
         f = fs[0]
         ctx.analysed(f)
+        interp = interp_count_op(prog, f, prim)
+        if interp is not None:
+            ctx.check(interp is True, 'R-RC.a', COUNT_REC + '::' + opn, 'returns %s(&n)' % prim, fwhere(f),
+                      'interpreted: exactly one %s on the address of the count, its value returned, no other store' % prim,
+                      'AtomicCount::%s: %s' % (opn, interp))
         calls = [e for e in fn_exprs(f) if e.get('k') == 'call']
         rets = [s for s in ir.walk_stmts(f['body']) if s.get('k') == 'return']
         ok = len(calls) == 1 and calls[0].get('fn') == prim and len(rets) == 1 and strip(rets[0]['e']) is calls[0] or \
@@ -497,7 +567,8 @@ def check_primitive(ctx, prog):
             arg_ok = a.get('k') == 'un' and a.get('op') == '&' and strip_lv(a['e']).get('f') == 'n'
         stores = [e for e in fn_exprs(f) if (e.get('k') == 'bin' and e.get('op', '').endswith('=') and e['op'] not in ('==', '!=', '<=', '>=')) or
                   (e.get('k') == 'un' and ('++' in e.get('op', '') or '--' in e.get('op', '')))]
-        ctx.check(ok and arg_ok and not stores, 'R-RC.a', COUNT_REC + '::' + opn, 'returns %s(&n)' % prim, fwhere(f),
+        if interp is None:
+          ctx.check(ok and arg_ok and not stores, 'R-RC.a', COUNT_REC + '::' + opn, 'returns %s(&n)' % prim, fwhere(f),
                   'returns the value of the atomic read-modify-write on the count', 'AtomicCount::%s is not `return %s(&n)` (plain arithmetic on the count, or the returned value is not that of the atomic operation)' % (opn, prim))
         n += 1
         ps = prog.fn(prim)
@@ -582,6 +653,12 @@ def check_relocation(ctx, prog, name):
             continue
         if short in fam['relocators_exempt'] or f.get('kind') in ('ctor', 'dtor'):
             continue
+        if f.get('acc') in ('protected', 'private'):
+            # a non-public helper that only the exempt members call (swapTable() behind operator= / dup()): their rules cover it
+            callers = [g for g in prog.functions if g.get('clsp') == fam['handle'] and g.get('body') and g is not f and
+                       any(w.get('k') == 'call' and w.get('fn') == f.get('q') for w in fn_exprs(g))]
+            if callers and all(g['n'] in fam['relocators_exempt'] or g.get('kind') in ('ctor', 'dtor') for g in callers):
+                continue
         found += 1
         ctx.analysed(f)
         g = q.Guarded(f)
